@@ -118,4 +118,189 @@ Keys(fs) == {f.key : f \in fs}
 \* THE step predicate: rewrite(s) of kind k between two observations
 StepOK(k, before, after, table) == Keys(Compared(before, k, table)) = Keys(Compared(after, k, table))
 
+-----------------------------------------------------------------------------
+(* The state machine.  `pending' (the kinds of the rewrites since the last  *)
+(* Observe) and `steps' are bookkeeping that lets the two-step statement    *)
+(* "Rewrite, then Observe" be written as a property of single steps.        *)
+
+CONSTANTS Variant,    \* which abstract analyzer the model runs ("ideal" or a defective one, see Analyze)
+          UseTable,   \* FALSE: compare without the exclusion table (shows that the table is needed)
+          MaxLen      \* length bound of the rewrite histories
+
+VARIABLES prog, rendering, observed, pending, steps
+vars == <<prog, rendering, observed, pending, steps>>
+
+\* ---- a small abstract program and analyzer (model mode only) -------------
+\* Three top-level items of one statement each; item 3 uses a declaration of item 1 (so it must stay behind it).
+\* Two local names u, v.  A finding is [id, at (item), about (name)].
+AbsProg == [items |-> 1..3, deps |-> {<<3, 1>>},
+            findings |-> {[id |-> "zerodiv", at |-> 1, about |-> "u"], [id |-> "uninitvar", at |-> 2, about |-> "v"],
+                          [id |-> "nullPointer", at |-> 3, about |-> "u"], [id |-> "suspiciousSemicolon", at |-> 2, about |-> ""],
+                          [id |-> "shadowVariable", at |-> 3, about |-> "v"]}]
+
+OrderOf(r) == CASE r.order = 0 -> <<1, 2, 3>> [] r.order = 1 -> <<2, 1, 3>> [] r.order = 2 -> <<1, 3, 2>>
+RespectsDeps(ord, deps) == \A d \in deps : (CHOOSE q \in DOMAIN ord : ord[q] = d[1]) > (CHOOSE q \in DOMAIN ord : ord[q] = d[2])
+ASSUME Mode = "model" => \A o \in 0..2 : RespectsDeps(OrderOf([order |-> o]), AbsProg.deps)
+
+Pos(r, it) == CHOOSE q \in 1..3 : OrderOf(r)[q] = it
+\* fill operation number j puts its lines in front of item (j mod 3) + 1
+FillBefore(r, it) == LET F == r.fill IN
+  LET RECURSIVE S(_)
+      S(j) == IF j = 0 THEN 0 ELSE S(j - 1) + (IF ((j - 1) % 3) + 1 = it THEN F[j][2] ELSE 0) IN S(Len(F))
+LineOf(r, it) == LET RECURSIVE L(_)
+                     L(q) == IF q = 0 THEN 0 ELSE L(q - 1) + FillBefore(r, OrderOf(r)[q]) + 1 IN L(Pos(r, it))
+Spell(r, nm) == IF nm = "" THEN ""
+                ELSE CASE r.names.l = 0 -> nm
+                       [] r.names.l = 1 -> (IF nm = "u" THEN "v" ELSE "u")
+                       [] r.names.l = 2 -> (IF nm = "u" THEN "zzb" ELSE "zza")
+Unspell(r, c) == IF \E nm \in {"u", "v"} : Spell(r, nm) = c THEN CHOOSE nm \in {"u", "v"} : Spell(r, nm) = c ELSE c
+
+\* findings whose MEANING depends on the rendering (that is why they are in the table)
+Fires(f, r) == CASE f.id = "suspiciousSemicolon" -> r.ws # 2 /\ FillBefore(r, 3) = 0
+                 [] f.id = "shadowVariable" -> r.names.l = r.names.p /\ Pos(r, 2) < Pos(r, 3)
+                 [] OTHER -> TRUE
+
+\* concrete findings [id, line, name] of the analyzer on the rendering
+Analyze(P, r) ==
+  {[id |-> f.id,
+    line |-> IF Variant = "line8" THEN LineOf(r, f.at) % 256 ELSE LineOf(r, f.at),           \* 8 bit line bookkeeping
+    name |-> Spell(r, f.about)]
+   : f \in {f \in P.findings :
+              /\ Fires(f, r)
+              /\ ~(Variant = "nameKeyed" /\ f.id = "zerodiv" /\ Spell(r, f.about) \in {"zza", "zzb"})   \* heuristic keyed on a spelling
+              /\ ~(Variant = "orderDep" /\ f.id = "nullPointer" /\ Pos(r, 2) > Pos(r, 3))}}          \* analysis depends on item order
+
+\* projection back through the rendering's maps
+Project(r, c) == LET at == IF \E it \in 1..3 : LineOf(r, it) = c.line THEN CHOOSE it \in 1..3 : LineOf(r, it) = c.line ELSE 0
+                     nm == Unspell(r, c.name)
+                 IN [id |-> c.id, key |-> <<c.id, at, nm>>, mk |-> <<c.id, nm>>, indef |-> FALSE]
+ObservedOf(P, r) == {Project(r, c) : c \in Analyze(P, r)}
+
+Init == /\ prog = AbsProg /\ rendering = InitRendering /\ observed = ObservedOf(AbsProg, InitRendering)
+        /\ pending = {} /\ steps = 0
+
+Rewrite(a) == /\ steps < MaxLen
+              /\ Apply(a.k, a.n, rendering) # rendering
+              /\ rendering' = Apply(a.k, a.n, rendering)
+              /\ pending' = pending \cup {a.k}
+              /\ steps' = steps + 1
+              /\ UNCHANGED <<prog, observed>>
+
+Observe == /\ pending # {}
+           /\ observed' = ObservedOf(prog, rendering)
+           /\ pending' = {}
+           /\ UNCHANGED <<prog, rendering, steps>>
+
+Next == (\E a \in LettersC05 : Rewrite(a)) \/ Observe
+Spec == Init /\ [][Next]_vars
+
+\* what is compared after several rewrites: what every one of them compares
+ComparedAll(obs, ks) == {f \in obs : \A k \in ks : f \in Compared(obs, k, UseTable)}
+
+\* THE PROPERTY: the Observe after rewrites leaves `observed' unchanged (modulo the table)
+Invariance == [][(pending # {} /\ pending' = {}) => Keys(ComparedAll(observed, pending)) = Keys(ComparedAll(observed', pending))]_vars
+\* a rewrite changes only the rendering
+OnlyRendering == [][rendering' # rendering => prog' = prog /\ observed' = observed]_vars
+ProgFixed == [][prog' = prog]_vars
+
+\* gen / judge mode run without behaviour: one state
+IOInit == prog = <<>> /\ rendering = <<>> /\ observed = {} /\ pending = {} /\ steps = 0
+IONext == UNCHANGED vars
+
+-----------------------------------------------------------------------------
+(* gen: the rewrite histories.  IOEnv.PARAMS: [prop, maxlen], IOEnv.OUT.   *)
+
+GenP == IF Mode = "gen" THEN ndJsonDeserialize(IOEnv.PARAMS)[1] ELSE [prop |-> "C05", maxlen |-> 0]
+Alphabet == IF GenP.prop = "C05" THEN LettersC05 ELSE LettersC06Mix
+
+RECURSIVE After(_)
+After(h) == IF h = <<>> THEN InitRendering ELSE Apply(h[Len(h)].k, h[Len(h)].n, After(SubSeq(h, 1, Len(h) - 1)))
+
+RECURSIVE HistOfLen(_)
+HistOfLen(m) == IF m = 0 THEN {<<>>}
+                ELSE {Append(ha[1], ha[2]) : ha \in {ha \in HistOfLen(m - 1) \X Alphabet :
+                                                       Apply(ha[2].k, ha[2].n, After(ha[1])) # After(ha[1])}}
+Relevant(h) == GenP.prop = "C05" \/ \E i \in DOMAIN h : h[i].k \in ExpandKinds
+Histories == IF Mode = "gen" THEN {h \in UNION {HistOfLen(m) : m \in 1..GenP.maxlen} : Relevant(h)} ELSE {}
+LetterStr(a) == IF a.n = 0 THEN a.k ELSE a.k \o ":" \o ToString(a.n)
+
+ASSUME Mode = "gen" => /\ PrintT(<<"HISTORIES", Cardinality(Histories)>>)
+                       /\ LET S == SetToSeq(Histories) IN
+                          ndJsonSerialize(IOEnv.OUT, [i \in DOMAIN S |-> [h |-> [j \in DOMAIN S[i] |-> LetterStr(S[i][j])]]])
+
+-----------------------------------------------------------------------------
+(* judge: recorded observation traces of the real analyzer.                 *)
+(* IOEnv.TRACES (ndjson):                                                   *)
+(*  [t |-> "prog", p, n (items), deps <<<<i, j>>...>> (item i stays behind   *)
+(*     item j), orders (the item orders sigma_0..2), maps (name tables:     *)
+(*     sequences of [scope, conc, base]), fixed (identifiers that are not   *)
+(*     renamed: keywords, library and member names),                        *)
+(*     obs (table of distinct observations, each a sequence of findings)]   *)
+(*  [t |-> "trace", pi (line of its prog), lang, o0, cc0, steps <<[k, n, r  *)
+(*     (rendering after the step), o (index into obs), m (index into maps), *)
+(*     cc (1 compiles, 0 does not, -1 not tried)]...>>]                      *)
+(* IOEnv.OUT: the deviating steps, one record per (step, id), and the steps *)
+(* where the DRIVER did not follow the spec (t = "driver").                 *)
+
+In == IF Mode = "judge" THEN ndJsonDeserialize(IOEnv.TRACES) ELSE <<>>
+TraceIdx == {i \in DOMAIN In : In[i].t = "trace"}
+ProgIdx == {i \in DOMAIN In : In[i].t = "prog"}
+
+ObsSet(p, o) == {In[p].obs[o][j] : j \in DOMAIN In[p].obs[o]}
+
+\* ReorderTopLevel: only permutations that keep every use behind its declaration
+ValidOrder(p, ord) ==
+  LET n == In[p].n
+      pos(it) == CHOOSE q \in 1..n : ord[q] = it
+  IN /\ Len(ord) = n /\ {ord[q] : q \in 1..n} = 0..(n - 1)
+     /\ \A d \in DOMAIN In[p].deps : pos(In[p].deps[d][1]) > pos(In[p].deps[d][2])
+
+\* Rename*: inside one scope a spelling denotes one name; a local scope and the program scope share a spelling only for
+\* one name; no spelling of a renamed identifier is a keyword, a library or a member name
+ValidNames(p, tab) ==
+  LET E == {tab[j] : j \in DOMAIN tab}
+      Fixed == {In[p].fixed[j] : j \in DOMAIN In[p].fixed}
+  IN /\ \A a, b \in E : (a.conc = b.conc /\ (a.scope = b.scope \/ a.scope = -1 \/ b.scope = -1)) => a.base = b.base
+     /\ \A a \in E : a.conc \notin Fixed
+
+ProgOK(p) == /\ \A o \in DOMAIN In[p].orders : ValidOrder(p, In[p].orders[o])
+             /\ \A m \in DOMAIN In[p].maps : ValidNames(p, In[p].maps[m])
+
+StepIdx == UNION {{<<i, s>> : s \in DOMAIN In[i].steps} : i \in TraceIdx}
+RBefore(i, s) == IF s = 1 THEN InitRendering ELSE In[i].steps[s - 1].r
+OBefore(i, s) == IF s = 1 THEN In[i].o0 ELSE In[i].steps[s - 1].o
+CBefore(i, s) == IF s = 1 THEN In[i].cc0 ELSE In[i].steps[s - 1].cc
+
+\* the driver's step is the spec's Rewrite: exactly Apply on the rendering; and the second witness (a compiler) accepts
+\* the rewritten text whenever it accepted the text before
+DriverOK(i, s) == LET st == In[i].steps[s] IN
+                  /\ st.r = Apply(st.k, st.n, RBefore(i, s))
+                  /\ ~(CBefore(i, s) = 1 /\ st.cc = 0)
+
+Hist(i, s) == [j \in 1..s |-> LetterStr([k |-> In[i].steps[j].k, n |-> In[i].steps[j].n])]
+
+Deviations(i, s) ==
+  LET st == In[i].steps[s]
+      p == In[i].pi
+      B == Compared(ObsSet(p, OBefore(i, s)), st.k, TRUE)
+      A == Compared(ObsSet(p, st.o), st.k, TRUE)
+      lost == {f \in B : f.key \notin Keys(A)}
+      gained == {f \in A : f.key \notin Keys(B)}
+      Dir(id) == IF \E f \in lost, g \in gained : f.id = id /\ g.id = id /\ f.mk = g.mk THEN "moved"
+                 ELSE IF (\E f \in lost : f.id = id) /\ (\E g \in gained : g.id = id) THEN "changed"
+                 ELSE IF \E f \in lost : f.id = id THEN "disappeared" ELSE "appeared"
+  IN IF StepOK(st.k, ObsSet(p, OBefore(i, s)), ObsSet(p, st.o), TRUE) THEN {}
+     ELSE {[t |-> "dev", trace |-> i, step |-> s, p |-> In[p].p, lang |-> In[i].lang, hist |-> Hist(i, s), k |-> st.k,
+            id |-> id, dir |-> Dir(id), class |-> st.k \o ":" \o id \o ":" \o Dir(id),
+            lost |-> SetToSeq({f.key : f \in {f \in lost : f.id = id}}),
+            gained |-> SetToSeq({f.key : f \in {f \in gained : f.id = id}})]
+           : id \in {f.id : f \in lost \cup gained}}
+
+AllDev == UNION {Deviations(x[1], x[2]) : x \in StepIdx}
+DriverBad == {[t |-> "driver", trace |-> x[1], step |-> x[2], p |-> In[In[x[1]].pi].p, what |-> "step is not Apply / witness rejects"]
+              : x \in {x \in StepIdx : ~DriverOK(x[1], x[2])}}
+            \cup {[t |-> "driver", trace |-> 0, step |-> 0, p |-> In[p].p, what |-> "invalid order or name table"] : p \in {p \in ProgIdx : ~ProgOK(p)}}
+
+ASSUME Mode = "judge" => /\ PrintT(<<"STEPS", Cardinality(StepIdx), "DEVIATIONS", Cardinality(AllDev), "DRIVER", Cardinality(DriverBad)>>)
+                         /\ ndJsonSerialize(IOEnv.OUT, SetToSeq(AllDev) \o SetToSeq(DriverBad))
 =============================================================================
